@@ -101,8 +101,18 @@ impl<'a, 'b, Output: BinaryOutput> AdtSerializer<'a, 'b, Output> {
         constructor_idx: u32,
         serialize_case: impl FnOnce(&mut SerializationContext<Output>) -> Result<()>,
     ) -> Result<()> {
+        // With evolution steps on the enum itself the constructor lives in chunk 0, where the
+        // reader looks for it.
+        let requires_buffer = !self.buffers.is_empty();
+        if requires_buffer {
+            self.context.push_buffer(self.buffers[0].take().unwrap());
+        }
         self.context.write_var_u32(constructor_idx);
-        serialize_case(self.context)
+        let result = serialize_case(self.context);
+        if requires_buffer {
+            self.buffers[0] = Some(self.context.pop_buffer());
+        }
+        result
     }
 
     fn record_field_index(&mut self, field_name: &str, chunk: u8) {
